@@ -176,6 +176,29 @@ func init() {
 			"a wildcard entry is required to match a non-empty left label (the empty-label origin scheme://.domain is not demanded either way)",
 		},
 	}
+	var c10quick, c10all []int
+	for ci := 0; ci < 14; ci++ {
+		c10quick = append(c10quick, ci*4+(ci%4))
+		for k := 0; k < 4; k++ {
+			c10all = append(c10all, ci*4+k)
+		}
+	}
+	c10quick = append(c10quick, 6*4+0, 7*4+0, 3*4+3, 8*4+3, 2*4+1)
+	props["C10"] = PropSpec{
+		ID: "C10",
+		Runs: []HarnessRun{
+			{Rel: ".", Dir: "fiber", Entry: "VH_C10_trust", Cases: tierCases(c10quick, c10all), Reach: []string{"trusted", "untrusted"}, MaxPaths: 100000},
+		},
+		Bounds: map[string]string{
+			"quick":    "14 proxy configurations (empty set, single address, CIDR /8 /24 /31, v6 /32, each class flag, combinations, IP validation, v4-mapped and v6 peers), one forwarding-header family each (+5): peer address fully symbolic (4 bytes; v6: 4 symbolic bytes of a 16-byte address), forwarded value a symbolic string of length 1..3",
+			"thorough": "14 configurations x 4 header families",
+		},
+		Assumptions: []string{
+			"TrustProxy is enabled in every case; TLS off (scheme of the connection is http)",
+			"forwarded header values are printable ASCII, length <= 3; exactly one scheme-bearing header family per request",
+			"v6 peers: bytes 3..14 fixed, so only prefixes/classes decided by the first bytes are exercised",
+		},
+	}
 	props["SMOKEFAIL"] = PropSpec{
 		ID: "SMOKEFAIL",
 		Runs: []HarnessRun{
